@@ -411,9 +411,16 @@ def deep_store_is_rmw(model: Model, sw: "SharedWrite") -> bool:
 def history_definite(model: Model, sw: "SharedWrite") -> bool:
     """Is this write certain to make persistent data depend on the calls made so far?  Read-modify-write of the shared
     object (augmented stores, in-place transformations, reordering) or overwriting components of a persistent object."""
+    # move-to-front / transposition of a search list:  X.insert(0, X.pop(i))  only permutes the container; whether results depend
+    # on the order is a question about its readers, so this alone is not positive evidence
+    mtf_lines = {l for kk, l, t in sw.records if kk.split(" (")[0] == "method:insert"
+                 and re.search(r"([\w\.]+)\.insert\(\w+,\1\.pop\(", t.replace(" ", ""))}
+    mtf = bool(mtf_lines) and all(l in mtf_lines for kk, l, t in sw.records if kk.split(" (")[0] in ("method:insert", "method:pop"))
     for k in sw.kinds:
         base = k.split(" (")[0]
         if "(object stored in shared state)" in k:
+            continue
+        if mtf and base in ("method:insert", "method:pop"):
             continue
         if base in ("subscript-aug", "aug-assign") or base.startswith("attr-aug:"):
             return True
